@@ -401,7 +401,18 @@ func clampInt(i int64, bits int) int64 {
 
 // ---- generators ----
 
-var fieldNames = []string{"A", "B", "C", "D", "E", "Name", "Value", "ID", "Xyz", "URL", "aBc", "X1", "LongFieldName", "Zed"}
+// (Urls / URLs and HostName / Hostname: names that differ in the case of a later letter only - their
+// default keys, lower-cased in the first letter only, differ too)
+var fieldNames = []string{"A", "B", "C", "D", "E", "Name", "Value", "ID", "Xyz", "URL", "aBc", "X1", "LongFieldName", "Zed", "Urls", "URLs", "HostName", "Hostname"}
+
+// keyNorm is the spelling under which two field names collide as default keys: names of up to
+// three letters are lower-cased entirely, longer ones in the first letter.
+func keyNorm(name string) string {
+	if len(name) > 3 {
+		return strings.ToLower(name[:1]) + name[1:]
+	}
+	return strings.ToLower(name)
+}
 var scalarKinds = []string{"bool", "int", "int8", "int16", "int32", "int64", "uint", "uint8", "uint16", "uint32", "uint64", "float32", "float64", "string", "string", "int64",
 	"nuint16", "nint32", "nbool", "nfloat64", "nstring"} // n...: named types with that underlying kind
 var otherKinds = []string{"bytes", "ints", "strs", "mapsi", "pint", "pstr", "ppint", "any", "any", "arr3", "mapsm", "nstrs", "nports", "nmapli"}
@@ -414,13 +425,15 @@ func DrawType(t *rapid.T, depth int) *TypeR {
 	n := rapid.IntRange(1, 6).Draw(t, "nfields")
 	tr := &TypeR{}
 	used := map[string]bool{}
+	usedKey := map[string]bool{}
 	usedTag := map[string]bool{}
 	for i := 0; i < n; i++ {
 		name := rapid.SampledFrom(fieldNames).Draw(t, "fname")
 		name = strings.ToUpper(name[:1]) + name[1:]
-		for used[strings.ToLower(name)] || usedTag[strings.ToLower(name)] {
+		for usedKey[keyNorm(name)] || usedTag[strings.ToLower(name)] {
 			name += "x" // no field name may equal another field's tag name: Recompose honours tags whatever wrote the data
 		}
+		usedKey[keyNorm(name)] = true
 		used[strings.ToLower(name)] = true
 		f := FieldR{Name: name}
 		k := rapid.IntRange(0, 9).Draw(t, "kindclass")
